@@ -514,6 +514,12 @@ def _axis_rule(ctx, repo, rm, rd):
             return Dim('Q')
         return NotImplemented
 
+    # the per-operation body may have been extracted into a private helper of the class: look for the allocation there too
+    from . import simrules as _sr
+    fn4_all = [fn4] + _sr.own_callees(repo, sr, fn4)
+    fn4 = next((f_ for f_ in fn4_all if any(isinstance(st, ast.Assign) and isinstance(st.targets[0], ast.Name) and isinstance(st.value, ast.Call)
+                                                                            and call_name(st.value) in ('zeros', 'empty') for st in ast.walk(f_))), fn4)
+
     def s4():
         # the per-measurement sample array: the local allocated with np.zeros inside the loop over the measurement operations
         outs = [st for st in ast.walk(fn4) if isinstance(st, ast.Assign) and isinstance(st.targets[0], ast.Name)
@@ -524,7 +530,7 @@ def _axis_rule(ctx, repo, rm, rd):
         out = as_arr(it.ev(outs[0].value))
         if out.labels != ('R', 'Q'):
             return False, f'per-measurement samples are allocated as {out.labels}, expected (R, Q)'
-        comps4 = [c for c in ast.walk(fn4) if isinstance(c, ast.DictComp) and isinstance(c.generators[0].iter, ast.Call) and call_name(c.generators[0].iter) == 'items'
+        comps4 = [c for f_ in fn4_all for c in ast.walk(f_) if isinstance(c, ast.DictComp) and isinstance(c.generators[0].iter, ast.Call) and call_name(c.generators[0].iter) == 'items'
                   and isinstance(c.generators[0].target, ast.Tuple)]
         if not comps4:
             raise Unknown('stacking of repeated-key samples vanished')
@@ -782,6 +788,9 @@ def _int64_guard_rule(ctx, repo):
                 return 'int64'
             return NotImplemented
         it = fdx.NumInterp({'self': {}, 'key': 'k', 'fold_base': base, 'batch_size': 50000}, call_hook=call_hook, attr_hook=attr_hook)
+        it.methods = {mn: f_ for c_ in repo.mro(res) for mn, f_ in c_.methods.items()}       # private helpers of the class are followed
+        from . import c03 as _c03
+        it.resolver = _c03.make_resolver(repo, res.mod, fn)                                   # and module-level ones
         took_fast = False
         try:
             out = it.call(fn)
